@@ -176,6 +176,13 @@ func c06Eval(sets []*c06Set, nPerm int, perSite bool, r *kit.Rng, budget *kit.Bu
 		}
 		if s.Set != nil {
 			for key, want := range s.Set.Expect {
+				if strings.HasPrefix(key, "~~") {
+					path := key[2:strings.Index(key, "#")]
+					if got := ref.OrderTrace[path]; !isSubsequence(want, got) {
+						add(s, load.OrderSpec{Mode: "sorted"}, "textual-order:augments-from-submodules", fmt.Sprintf("children of %q written by %s: %v, compiled %v", path, key[strings.Index(key, "#")+1:], want, got), ref.LogHash)
+					}
+					continue
+				}
 				if strings.HasPrefix(key, "~") {
 					if got := ref.OrderTrace[""]; !isSubsequence(want, got) {
 						add(s, load.OrderSpec{Mode: "sorted"}, "textual-order:submodule-top-level", fmt.Sprintf("top-level definitions of submodule %s are not in textual order: written %v, compiled root has %v", key[1:], want, got), ref.LogHash)
